@@ -21,6 +21,9 @@ func (c *Ctx) covered(fam string, ref Term, lo, hi *Term) Term {
 		if t.ghost != nil || t.fam != fam {
 			continue
 		}
+		if t.all {
+			return TTrue
+		}
 		same := Eq(ref, t.ref)
 		switch {
 		case t.lo != nil:
@@ -89,6 +92,15 @@ func (c *Ctx) checkCalleeTarget(st *State, t modTarget, pos token.Pos, callee st
 			}
 		}
 		c.oblige(st, "frame", "call:"+callee, pos, TFalse, "callee modifies ghost variable "+t.ghost.Name+" which is not in the modifies footprint")
+		return
+	}
+	if t.all {
+		for _, f := range c.footprint {
+			if f.all && f.fam == t.fam {
+				return
+			}
+		}
+		c.oblige(st, "frame", "call:"+callee, pos, TFalse, "callee may modify every object of family "+t.fam+" which is not in the modifies footprint")
 		return
 	}
 	if c.isFreshRef(t.ref) {
